@@ -50,7 +50,7 @@ Next == Mkfile \/ MkdirP \/ WriteX \/ WriteE \/ AppendX \/ Remove \/ RemoveAll \
 Spec == Init /\ [][Next]_vars
 
 (* ---------------- properties ---------------- *)
-WellFormedTree == TreeOK(fs) /\ Exists(fs, cwd)                                   \* C03 on the abstract level (links never have children)
+WellFormedTree == TreeOK(fs)                  \* C03 on the abstract level (links never have children); the cwd may name a directory that was removed since
 SingleTarget == {"mkfile", "mkdir_p", "write_all", "append_all", "remove", "move_p", "symlink", "set_cwd"}
 Failed(x) == x.ok # "ok" /\ x.ok # "?"
 \* C01: a single-target call that reports failure leaves the tree exactly as it was
